@@ -25,7 +25,7 @@ TIMEOUT = {'quick': 1500, 'thorough': 3 * 3600}
 RULE = ('R1 cases: (notation, pair of argument tuples). R2 cases: (module, optimize, phase file). distinct_nontrivial = distinct (notation, tuple pair) whose expansions '
         'differ plus distinct module files with at least 5 steps.')
 ASSUMPTIONS = ['arguments in positions the definition does not depend on may legitimately be hidden', 'Instantiate keys are compared up to the documented reversal between the two formats']
-FLOORS = {'quick': {'r1_pairs': 3000, 'r1_pairs_different_expansion': 2000, 'r2_files_compared': 400, 'r2_steps_compared': 10000, 'mprint_calls': 2000, 'r1_instantiated_applications': 100,
+FLOORS = {'quick': {'r1_pairs': 3000, 'r1_pairs_different_expansion': 2000, 'r2_files_compared': 400, 'r2_steps_compared': 10000, 'mprint_calls': 2000, 'r1_instantiated_applications': 100, 'r1_unsorted_key_applications': 50, 'r1_partial_then_instantiated_applications': 20,
                     'family:propositional': 500, 'family:definedness': 400, 'family:kore': 1500, 'family:forall': 100, 'family:sorted_exists': 100, 'family:kore_exists': 100, 'family:nary_app': 300}}
 FLOORS['thorough'] = dict(FLOORS['quick'])
 
@@ -123,6 +123,25 @@ def r1_workload(ctx, rng):
                     ctx.count('r1_instantiated_applications')
                 except Exception as ex:
                     ctx.violation('instantiate_raises:' + fam, f'instantiating an application of {N_.label} raised {type(ex).__name__}', {'notation': N_.label, 'error': repr(ex)[:200]})
+        # the same applications with a map that is not keyed 0..n-1 in insertion order: built directly, and the way the toolkit itself
+        # produces them (a node that leaves parameters open, completed by instantiate)
+        if k >= 2:
+            from frozendict import frozendict
+            for args in tuples[:5]:
+                order = list(range(k))
+                while order == sorted(order):
+                    rng.shuffle(order)
+                apps.append((args, P.Instantiate(N_.definition, frozendict({i: args[i] for i in order})), 'unsorted_keys'))
+                ctx.count('r1_unsorted_key_applications')
+                later = [i for i in sorted(used) if rng.random() < 0.5] or sorted(used)[:1]
+                first = [i for i in range(k) if i not in later]
+                if first and later and max(first) > min(later):
+                    try:
+                        node = P.Instantiate(N_.definition, frozendict({i: args[i] for i in first})).instantiate({i: args[i] for i in later})
+                        apps.append((args, node, 'partial_then_instantiated'))
+                        ctx.count('r1_partial_then_instantiated_applications')
+                    except Exception as ex:
+                        ctx.violation('instantiate_raises:' + fam, f'instantiating a partial application of {N_.label} raised {type(ex).__name__}', {'notation': N_.label, 'error': repr(ex)[:200]})
         for args, app, how in apps:
             try:
                 s = app.pretty(opts)
